@@ -97,7 +97,7 @@ pub fn run(ctx: &Ctx) {
         "cases are (key, iv, request sizes): all 4095 compositions of every total <= 12 into positive parts for 3 (key, iv) pairs, the same with \
          zero-length requests inserted (front, back, doubled, between all parts); proptest splits of totals up to 4096 (thorough 65536) words with \
          random zero-length requests; official vectors incl. the 2000-word one; two stored (key, iv) found off-line with the reference where the LFSR \
-         feedback is congruent to 0 (word index 22306 / 38385). Oracle: reference ZUC from the specification (64-bit arithmetic mod 2^31-1, algebraically \
+         feedback is congruent to 0 (word index 22306 / 38385); (key, iv) crafted so that the first initialisation step feeds back t mod 2^31-1 for t at both edges {0..8, 2^31-9..2^31-2}. Oracle: reference ZUC from the specification (64-bit arithmetic mod 2^31-1, algebraically \
          generated S-boxes) and the library's own single-request keystream. Non-trivial: >= 2 requests, or a zero-length request, or total > 2 words.",
     );
     ctx.assume("reference ZUC (harness/src/refimpl/zuc.rs) anchored on the four official ZUC vectors (incl. word 2000), EEA3 test set 1 and EIA3 test sets");
@@ -213,6 +213,40 @@ pub fn run(ctx: &Ctx) {
                 ensure!(z[*i] == *w, "entry=ZUC::generate_keystream outcome=wrong-keystream", "official vector word {}: library {:08x}, published {:08x}", i, z[*i], w);
             }
             Ok(r)
+        },
+    );
+
+    let seed = ctx.seed;
+    ctx.cold("cold_start_keystream", "keystream generation as the first library operation of a fresh process", move || {
+        (0..4u64).map(|i| Split { key: Hex(expand_bytes(seed ^ 0xc08d ^ i, 16)), iv: Hex(expand_bytes(seed ^ 0xc08e ^ i, 16)), requests: if i % 2 == 0 { vec![9] } else { vec![0, 1, 3, 5] } }).collect()
+    }, check_split);
+
+    ctx.listed(
+        "crafted_first_feedback_edges",
+        "(key, iv) solved (meet in the middle over key/iv bytes 0 and 4) so that the first LFSR initialisation step feeds back a value congruent to t mod 2^31-1 for t in {0 (the 0 -> 2^31-1 rule), 1..8, 2^31-9..2^31-2}: a lazily or partially reduced sum leaves the cell out of range exactly there; 2 base draws each, one request and word-by-word",
+        move || {
+            let m = (1u64 << 31) - 1;
+            let mut targets: Vec<u64> = (0..=8).collect();
+            targets.extend((1..=8).map(|d| m - d));
+            let mut v = Vec::new();
+            for (ti, t) in targets.iter().enumerate() {
+                for draw in 0..2u64 {
+                    let base = expand_bytes(seed ^ 0xfeed ^ ((ti as u64) << 8) ^ draw, 32);
+                    for (k, iv) in rzuc::craft_first_feedback(&arr16(&base[..16]), &arr16(&base[16..]), *t).into_iter().take(2) {
+                        v.push(Split { key: Hex(k.to_vec()), iv: Hex(iv.to_vec()), requests: vec![40] });
+                        v.push(Split { key: Hex(k.to_vec()), iv: Hex(iv.to_vec()), requests: vec![1, 0, 1, 2, 36] });
+                    }
+                }
+            }
+            v
+        },
+        |c| {
+            let f = rzuc::first_feedback(&arr16(&c.key), &arr16(&c.iv));
+            let m = (1u64 << 31) - 1;
+            if !(f <= 8 || f >= m - 8) {
+                return pass(false, "crafting-failed");
+            }
+            check_split(c).map(|_| Pass { nt: true, class: format!("first-feedback={}", if f <= 8 { format!("{}", f) } else { format!("M-{}", m - f) }) })
         },
     );
 
